@@ -498,11 +498,12 @@ SPECS["C03"] = {
     "outside": ["operator triples", "regexp semantics beyond the alphabet", "string interpolation inside operands (C14)", "assignment (loosest) is covered by the templates of C04/C05"],
 }
 
+_C20X = ["internal/cpu", "time", "internal/byteorder", "encoding/binary", "hash", "hash/crc32", "archive/zip"]
 SPECS["C20"] = {
     "explanation": "The real marker scan of RunPackedBinary is executed on an in-memory executable: n symbolic filler bytes over {x,#,newline}, the real marker, "
                    "a 4-byte archive stub; os/file calls and runInterpreter are replaced by harness functions (the latter records the archive size it is handed). The "
                    "scanner's block size b1 is a package variable and is shrunk from 4096 to 8 (b2 keeps its value) so that two full periods of the buffer geometry fit "
-                   "into the explored lengths. Counterexamples are replayed with a real temp file, a real zip archive and the real interpreter.",
+                   "into the explored lengths. Counterexamples are replayed with a real temp file, a real zip archive and the real interpreter. A second harness runs the real Pack (packFiles over a modelled project tree, real zip writer) and then the real RunPackedBinary incl. runInterpreter (real zip reader, import locator, parser, interpreter): the exit code is the sum of tags the entry file reads from every packed module through imports by relative path after comparing each module's string with its expected content.",
     "level_text": "bounded: all binary lengths 0..80 (> 2*(b1+b2)=72) at b1=8 (thorough also b1=16, 0..90) x all fillers over the 3-byte alphabet: the archive is found at the byte after the marker",
     "level_note": "trusts go/ssa, gosym, z3; function replacement for os/file/zip; the real 4096 geometry is covered only through the parametricity of the scan in b1",
     "harnesses": [
@@ -517,9 +518,17 @@ SPECS["C20"] = {
          "quick": None,
          "thorough": {"params": {"LO": lo, "HI": hi, "B1": 16}, "unwind": 300, "wall_s": 3000}}
         for (lo, hi) in ((0, 45), (46, 90))
+    ] + [
+        {"name": "H2-tree", "pkg": "cli/tool", "files": ["tool/c20.go"], "fn": "VerifC20Tree",
+         "what": "real Pack over a modelled project tree (4 shapes: same base name in two directories, nesting, empty file/directory, binary file) x module size classes x 3 source-binary lengths, real zip+deflate, real RunPackedBinary/runInterpreter: exit code = sum over all modules read back through imports",
+         "reach": ["packed", "ran"],
+         "quick": {"params": {"SIZES": 6, "CHUNK": 7}, "unwind": 5000, "wall_s": 900, "max_steps": 50000000, "interp_extra": _C20X},
+         "thorough": {"params": {"SIZES": 8, "CHUNK": 5}, "unwind": 5000, "wall_s": 3000, "max_steps": 200000000, "interp_extra": _C20X}},
     ],
-    "assumptions": ["b1 = 8 instead of 4096", "filler alphabet {x,#,newline}", "file system and zip reader replaced in the symbolic run"],
-    "outside": ["archive content recovery (archive/zip, flate)", "directory walking of the pack tool", "running the entry file"],
+    "assumptions": ["b1 = 8 instead of 4096 in the scan harnesses", "filler alphabet {x,#,newline}", "os/file functions replaced by an in-memory file system in the symbolic run",
+                    "tree harness: real archive/zip writer+reader, CRC-32 and directory walk are interpreted; the deflate codec is replaced by an identity codec whose reader "
+                    "delivers at most CHUNK bytes per Read (io.Reader contract; the native replay uses real deflate with sizes scaled to its 32 KiB window)"],
+    "outside": ["the deflate codec itself", "file contents other than the generated modules and one binary blob", "trees beyond the 4 shapes", "file names needing escaping"],
 }
 
 _C04 = ["interpreter/common.go", "interpreter/c04.go"]
